@@ -129,6 +129,10 @@ def load_sources(ctx, n_mut_per_file, include_known=True, gen=0, pid=None):
             grid = wgen.opgrid_programs(random.Random(ctx.seed * 31 + 7), per_op=3, widths=("u32",))
         for name, text in grid:
             res.append((name, text, "opgrid"))
+        if pid == "C05":
+            # liveness grid (see lib/wgen.py): one local through every event sequence x control-flow shape
+            for name, text in wgen.livegrid_programs(random.Random(ctx.seed * 17 + 3), per_shape=(60 if ctx.tier == "thorough" else 12)):
+                res.append((name, text, "livegrid"))
         for k in range(gen):
             res.append(("gen%04d_%d" % (k, ctx.seed), wgen.generate(random.Random(ctx.seed * 100003 + k)), "generated"))
     return res
